@@ -81,6 +81,7 @@ fn cmp5(a: &Bdd, b: &Bdd) -> String {
 
 /// Executes one case from its textual inputs and writes the observation.
 pub fn run(key: &str, a: &[String], out: &mut Out) {
+    out.begin(key, a);
     match key {
         "C18.pv" => {
             let k: usize = a[0].parse().unwrap();
